@@ -182,6 +182,13 @@ def c18_bytes_kept (o : StepObs) : Bool :=
         | _ => false
       deleted || (match o.post.secrets[n]? with | some s' => s'.versions[k]? == some b | none => false)
 
+/-- every secret of `pre` is still there in `post`, serving the same version by default -/
+def activeKept (pre post : KV) : Bool :=
+  pre.secrets.toList.all fun (n, s) =>
+    match post.secrets[n]? with
+    | some s' => s'.active == s.active
+    | none => false
+
 def c02_active (o : StepObs) : Bool :=
   match o.op with
   | .activate n v =>
@@ -192,10 +199,7 @@ def c02_active (o : StepObs) : Bool :=
   | .delete _ => true
   | _ =>
     -- only activate changes which existing version is served by default
-    o.pre.secrets.toList.all fun (n, s) =>
-      match o.post.secrets[n]? with
-      | some s' => s'.active == s.active
-      | none => false
+    activeKept o.pre o.post
 
 def c02_delete_version (o : StepObs) : Bool :=
   match o.op, o.res with
